@@ -24,6 +24,11 @@ CHECKS = {
     text="TLC checks for every literal list over 3 variables (length <= 4, any polarity/repetition), all six operators and constants -2..6 that clause blasting, parity encoding, OPB normalisation and the binary-mapping clauses are equivalent to their meaning (about 137k instances x 8 assignments); the real CNF and OPB builders are then called with list/tuple/range/generator arguments for all operators/constants, normalize_opb/add_constraint on random constraints, and force_* on unary, sparse and binary mappings, and TLC judges the added clauses/constraints against the meaning for all assignments.",
     note="Trusted: projection of clauses/constraints, identifier binding of mapping variables through the variable group, TLC. Literal lists up to length 4 (9 sampled), mappings up to 3x4 / 6 codes.",
     ref="DESIGN.md §4 C04"),
+ "C05": dict(
+    technique="gadget semantics and the documented substitution construction in TLA+ (Transform.tla); composition theorem model-checked by TLC; real transformation outputs judged by TLC over all assignments (JudgeTransform.tla)",
+    text="TLC proves the composition theorem for the transcribed construction on all 463 CNFs over two variables x every gadget (arity <= 3, all thresholds, ite, flip, lifting); the real transformations are applied to the same formulas, to formulas with unused variables, to random formulas and (compression) to all small bipartite graphs, and TLC decides for every assignment of the new variables Sat(a,T(F)) <=> side condition and Sat(Induced(a),F), plus the documented variable count.",
+    note="Trusted: projection of clauses, documented block layout used by Induced, TLC. Arity <= 3, <= 15 new variables.",
+    ref="DESIGN.md §4 C05"),
  "C16": dict(
     technique="implementation-shaped TLA+ state machine (Graphs.tla) model-checked exhaustively by TLC; TLC-generated behaviours replayed into the real classes with every view compared after every call",
     text="TLC explores every reachable state of the implementation-shaped graph machine (vertex counts 0..3/4, all arguments incl. invalid) with invariant ViewsAgree and the no-side-effect action property; every behaviour of depth 2 (3 thorough) and thousands of deeper random walks are replayed into Graph/DirectedGraph/BipartiteGraph, comparing all views and networkx conversions with TLC's expected abstract views after each step.",
